@@ -86,9 +86,10 @@ Qed.
 (** * the prompt-stop clause holds along the model's run *)
 Section IdleRun.
 Variable mx : Z.
+Variable kp : Z.
 
 Lemma op_stop_clause tnt x t o :
-  Jop mx tnt x t -> op_ok x o = true -> stops_low_ok x o = true -> TK (po_tasks t) ->
+  Jop mx kp tnt x t -> op_ok x o = true -> stops_low_ok x o = true -> TK (po_tasks t) ->
   stop_clause t o (snd (pstep x o)) = true.
 Proof.
   intros HJop Hok Hlow HK.
@@ -100,20 +101,23 @@ Proof.
             (snd (let '(x', r, e) := stop_loop (S (S (Z.to_nat (dur / 1000000)))) (upd_pool x 0 (p_with_state PStopping)) 0
                                        (get_timeout_time (pw_clock (upd_pool x 0 (p_with_state PStopping))) dur) [] in (x', OStop r e))) = true) as Hlive.
   { intro Hne. set (x1 := upd_pool x 0 (p_with_state PStopping)).
-    pose proof (Jop_stop_ts mx tnt x t HJop Hne) as HJ1. fold x1 in HJ1.
+    pose proof (Jop_stop_ts mx kp tnt x t HJop Hne) as HJ1. fold x1 in HJ1.
     assert (p_state (get_pool x1 0) = PStopping) as Hst1.
-    { unfold x1. destruct HJop as [HJ _]. rewrite get_pool_upd_pool_same by (rewrite (jp_pools _ _ _ (j_p _ _ _ _ _ _ _ HJ)); lia). reflexivity. }
+    { unfold x1. destruct HJop as [HJ _]. rewrite get_pool_upd_pool_same by (rewrite (jp_pools _ _ _ _ (j_p _ _ _ _ _ _ _ _ HJ)); lia). reflexivity. }
     assert (quiet_off (stop_ts t)) as Hq1.
-    { unfold quiet_off. destruct HJop as [HJ _]. rewrite (stop_ts_pools t (js_pools _ _ _ _ _ (j_s _ _ _ _ _ _ _ HJ))). cbn [nth].
+    { unfold quiet_off. destruct HJop as [HJ _]. rewrite (stop_ts_pools t (js_pools _ _ _ _ _ (j_s _ _ _ _ _ _ _ _ HJ))). cbn [nth].
       apply (stop_ks_fields t). }
     assert (get_timeout_time (pw_clock x1) dur <= U64MAX) as Hdl.
     { unfold get_timeout_time, sat_add64. destruct (dur <=? U64MAX); lia. }
-    pose proof (stop_loop_I mx (S (S (Z.to_nat (dur / 1000000)))) tnt x1 (stop_ts t) (get_timeout_time (pw_clock x1) dur) [] HJ1 Hq1 Hst1 Hdl) as HI.
+    pose proof (stop_loop_I mx kp (S (S (Z.to_nat (dur / 1000000)))) tnt x1 (stop_ts t) (get_timeout_time (pw_clock x1) dur) [] HJ1 Hq1 Hst1 Hdl) as HI.
     destruct (stop_loop _ x1 0 _ []) as [[x' r] e]. cbn [fst snd stop_clause]. destruct r; try reflexivity.
     fold (stop_ks t). fold (stop_ts t).
     destruct (forallb task_settled (po_tasks t)) eqn:Eall; [|reflexivity]. cbn [negb orb].
     destruct (dur <=? 0) eqn:Edur; [reflexivity|]. cbn [orb] in *.
-    destruct (HI (TS_forallb _ Eall) HK) as (evs & Ee & Hc); [| reflexivity |].
+    assert (stopc (stop_ts t)) as Hsc1.
+    { unfold stopc. destruct HJop as [HJ _]. rewrite (stop_ts_pools t (js_pools _ _ _ _ _ (j_s _ _ _ _ _ _ _ _ HJ))). cbn [nth].
+      apply (stop_ks_fields t). }
+    destruct (HI (TS_forallb _ Eall) HK Hsc1) as (evs & Ee & Hc); [| reflexivity |].
     - left. assert (pw_clock x1 = pw_clock x) as -> by reflexivity.
       unfold get_timeout_time, sat_add64, sat_sub. destruct (dur <=? U64MAX) eqn:E; lia.
     - cbn [app] in Ee. subst e. apply orb_true_iff. left. lia. }
@@ -121,7 +125,7 @@ Proof.
 Qed.
 
 Lemma run_prompt : forall ops x t tnt,
-  Jop mx tnt x t -> hist_okp x ops = true -> stops_low x ops = true -> TK (po_tasks t) -> nodiv x ops = true ->
+  Jop mx kp tnt x t -> hist_okp x ops = true -> stops_low x ops = true -> TK (po_tasks t) -> nodiv x ops = true ->
   stops_prompt mx x t ops = true.
 Proof.
   induction ops as [|o r IH]; intros x t tnt HJ Hok Hlow HK Hnd; [reflexivity|].
@@ -130,9 +134,9 @@ Proof.
   unfold nodiv in Hnd. rewrite prun_cons in Hnd. cbn [forallb] in Hnd. apply andb_true_iff in Hnd as [Hnd1 Hnd2].
   apply negb_true_iff in Hnd1.
   cbn [stops_prompt]. rewrite (op_stop_clause tnt x t o HJ Hok1 Hlow1 HK), Hnd1. cbn [andb].
-  pose proof (op_step mx tnt x t o HJ Hok1) as Hstep. cbv zeta in Hstep. rewrite Hnd1 in Hstep.
+  pose proof (op_step mx kp tnt x t o HJ Hok1) as Hstep. cbv zeta in Hstep. rewrite Hnd1 in Hstep.
   eapply IH; [exact Hstep | exact Hok2 | exact Hlow2 | | exact Hnd2].
-  apply TK_postep; [exact HK|]. destruct Hstep as [HJ' _]. apply (jw_c13 _ _ _ (j_w _ _ _ _ _ _ _ HJ')).
+  apply TK_postep; [exact HK|]. destruct Hstep as [HJ' _]. apply (jw_c13 _ _ _ (j_w _ _ _ _ _ _ _ _ HJ')).
 Qed.
 
 End IdleRun.
@@ -148,7 +152,7 @@ Theorem stops_prompt_model1 : forall clock cfg ops, wf_pool1c clock cfg ops = tr
 Proof.
   intros clock cfg ops H. destruct (wfc_split _ _ _ H) as [Ht Hlow]. destruct (wft_split _ _ _ Ht) as [Hwf Hd].
   destruct (wf_split _ _ _ Hwf) as [Hc Hh].
-  apply (run_prompt (snd (fst cfg)) ops _ _ false (Jop_init clock cfg Hc) Hh Hlow (TK_init _ _) (nodiv_model1 clock cfg ops Ht)).
+  apply (run_prompt (snd (fst cfg)) (snd cfg) ops _ _ false (Jop_init clock cfg Hc) Hh Hlow (TK_init _ _) (nodiv_model1 clock cfg ops Ht)).
 Qed.
 
 (** P2 *)
